@@ -888,3 +888,15 @@ func (e *Enc) noteClause(key string, ok bool) {
 		e.clauseSeen[key] = false
 	}
 }
+
+// constArray: the array all of whose elements equal fill. Solvers accept (as const ...) only
+// for value terms; elements mentioning uninterpreted constants (strings) get a fresh array
+// symbol with a quantified definition.
+func (e *Enc) constArray(es string, fill Term) Term {
+	if !strings.Contains(fill.S, "str") && !strings.Contains(fill.S, "~") {
+		return Term{app("(as const "+arrSort(es)+")", fill.S), arrSort(es)}
+	}
+	a := e.havoc("constarr", arrSort(es))
+	e.emit("(assert (forall ((i! Int)) (! (= (select %s i!) %s) :pattern ((select %s i!)))))", a.S, fill.S, a.S)
+	return a
+}
